@@ -453,7 +453,7 @@ func (e *Exec) visit(th *Thread, fr *Frame, instr ssa.Instruction) {
 			if i < 0 {
 				panic(goPanic{msg: fmt.Sprintf("index out of range [%v] with length %d", idx, len(x))})
 			}
-			fr.env[in] = e.ctx.BVConstU(8, uint64(x[i]))
+			fr.env[in] = e.intConst(8, int64(x[i]))
 		default:
 			panic(pathAbort{"error", fmt.Sprintf("Index on %T", x)})
 		}
